@@ -47,6 +47,12 @@ type Step struct {
 	Faults  []Fault     `json:"faults,omitempty"`
 	API     *APICall    `json:"api,omitempty"`
 	Probe   bool        `json:"probe,omitempty"` // harness-initiated observation, not part of the workload
+
+	// CalDAV/CardDAV/robustness workloads
+	Kind      string `json:"kind,omitempty"`      // request template
+	DocEnd    int    `json:"doc_end,omitempty"`   // offset at which the body's document is complete
+	Malformed string `json:"malformed,omitempty"` // non-empty: malformed on purpose (what), must be answered 4xx
+	Call      *DavCall `json:"call,omitempty"`    // C14: one client call
 }
 
 func (s *Step) Header(name string) (string, bool) {
@@ -76,6 +82,10 @@ type Config struct {
 	Alphabet  string `json:"alphabet"`   // informational
 	Clients   int    `json:"clients"`    // number of caller nodes
 	MemfsSeed uint64 `json:"memfs_seed"` // metadata seed for the in-memory store
+
+	Server    string `json:"server,omitempty"` // "" (file server on Store) | caldav | carddav | webdav-mem | webdav-local | principal
+	Prefix    string `json:"prefix,omitempty"` // mount prefix of the CalDAV/CardDAV handler
+	WorldSeed uint64 `json:"world_seed,omitempty"`
 }
 
 // Plan is everything a run does. It is pure data: executing the same plan
@@ -124,4 +134,17 @@ type Violation struct {
 func (v *Violation) Signature() string { return v.Prop + "/" + v.Clause + " [" + v.Class + "]" }
 func (v *Violation) String() string {
 	return fmt.Sprintf("%s step=%d: %s", v.Signature(), v.Step, v.Msg)
+}
+
+// DavCall is one call of a public client method (C14).
+type DavCall struct {
+	Client string   `json:"client"` // webdav | caldav | carddav
+	Fn     string   `json:"fn"`
+	Path   string   `json:"path,omitempty"`
+	Dest   string   `json:"dest,omitempty"`
+	Paths  []string `json:"paths,omitempty"`
+	Flag   bool     `json:"flag,omitempty"`
+	N      int      `json:"n,omitempty"`
+	Token  string   `json:"token,omitempty"`
+	Data   []byte   `json:"data,omitempty"`
 }
